@@ -139,35 +139,45 @@ def context_items(repo):
                           where=fi.where(), mode="table", func=fi.qualname, detail=detail,
                           witness=None if ok else {"clause": name}))
 
+    from pyvc import shape
+    sfn = shape.of(repo, fi.qualname)
+
+    class B:
+        """the statements of one branch of the context switch; `snippet in b` is a shape match, not a text match"""
+        def __init__(self, stmts):
+            self.m = ast.Module(body=list(stmts), type_ignores=[])
+
+        def __contains__(self, snippet):
+            return bool(self.m.body) and shape.has(self.m, snippet)
     branch = {}
-    for n in ast.walk(fi.node):
+    for n in ast.walk(sfn):
         if isinstance(n, ast.If) and isinstance(n.test, ast.Compare) and ast.unparse(n.test.left) == "line_context" \
                 and isinstance(n.test.comparators[0], ast.Constant):
-            branch[n.test.comparators[0].value] = "\n".join(ast.unparse(s) for s in n.body)
-    mo = branch.get("mod_only", "")
+            branch[n.test.comparators[0].value] = B(n.body)
+    src = B(sfn.body)
+    mo = branch.get("mod_only", B([]))
     add("use_modules_only", "candidate.get_type() == MODULE_TYPE_ID" in mo and "candidate.get_desc() == 'MODULE'" in mo
         and "candidate.name.lower().startswith(var_prefix)" in mo and "return item_list" in mo,
         "in a USE statement exactly the indexed modules whose name starts with the prefix are offered")
-    mm = branch.get("mod_mems", "")
+    mm = branch.get("mod_mems", B([]))
     add("only_public_members", "public_only = True" in mm and "include_globals = False" in mm
         and "scope_list = [self.obj_tree[mod_name][0]]" in mm,
         "after ONLY: the candidates are the public members of that module, globals are not offered")
-    cl = branch.get("call", "")
-    add("call_callable_only", "req_callable = True" in cl and "if req_callable and (not candidate.is_callable()):\n                continue" in src.replace("    ", "    ")
-        or ("req_callable = True" in cl and "if req_callable and (not candidate.is_callable())" in src),
+    cl = branch.get("call", B([]))
+    add("call_callable_only", "req_callable = True" in cl and "if req_callable and (not candidate.is_callable()):\n    continue" in src,
         "after CALL only callable entities are offered")
-    ty = branch.get("type_only", "")
+    ty = branch.get("type_only", B([]))
     add("type_only", "type_mask = set_type_mask(True)" in ty and "type_mask[CLASS_TYPE_ID] = False" in ty,
         "inside TYPE( only derived types pass the type mask")
     member_ok = False
-    for n in ast.walk(fi.node):
+    for n in ast.walk(sfn):
         if isinstance(n, ast.If) and ast.unparse(n.test) == "is_member":
-            body = "\n".join(ast.unparse(s_) for s_ in n.body)
+            body = B(n.body)
             member_ok = ("type_scope = climb_type_tree(var_stack, curr_scope, self.obj_tree)" in body
                          and "include_globals = False" in body and "scope_list = [type_scope]" in body)
     add("member_access", member_ok,
         "after `object%` the only scope searched is the object's declared type and globals are not offered")
-    add("mask_applied", "if type_mask[candidate_type]:\n                continue" in src or "if type_mask[candidate_type]:" in src,
+    add("mask_applied", "if type_mask[candidate_type]:\n    continue" in src,
         "every candidate is passed through the context's type mask")
     add("filter_call", "get_candidates(scope_list, var_prefix, include_globals, public_only, abstract_only, no_use)" in src,
         "the candidate list is always produced by get_candidates with the typed prefix")
@@ -178,8 +188,9 @@ def extra(repo, reg, tier, seed):
     from contracts import c12_probe
     items = context_items(repo)
     fi = repo.func("fortls.parsers.internal.type.Type.get_children")
-    src = ast.unparse(fi.node)
-    ok = "tmp_list = copy.copy(self.children)" in src and "tmp_list.extend(self.in_children)" in src
+    from pyvc import shape
+    sg = shape.of(repo, fi.qualname)
+    ok = shape.has(sg, "tmp_list = copy.copy(self.children)\ntmp_list.extend(self.in_children)\nreturn tmp_list")
     items.append(Item("C12/Type.get_children/ensures.inherited_included", "proved" if ok else "refuted", "structural", 0.0,
                       where=fi.where(), mode="table", func=fi.qualname,
                       detail="a type's members are its own children followed by the inherited ones (in_children)"))
